@@ -110,7 +110,13 @@ func CheckC06(sc *Scenario, res *Result) *Violation {
 				if found != "" {
 					return violf("C06-report-content", "report for the panic in %s routine of %s: %s", phase, e.Mod, found)
 				}
-				if call := apiAfter(beginSeq[phase+"|"+e.Mod]); call != nil && call.ErrNil {
+				from := beginSeq[phase+"|"+e.Mod]
+				if phase == "prep" {
+					// prep routines are only ever invoked by Start, which does not wait for the other preps once one has
+					// failed: such a routine may even begin after Start has returned (with its error)
+					from = 0
+				}
+				if call := apiAfter(from); call != nil && call.ErrNil {
 					return violf("C06-lifecycle-error", "%s returned nil although the %s routine of %s, invoked by that call, panicked", call.Info, phase, e.Mod)
 				}
 			}
